@@ -15,6 +15,15 @@ import copy, json, os, re
 MAX_BLOCKS_AFTER = 6000
 
 
+LAYER_SCOPES = {"storage::engine::StorageEngine"}
+
+
+def _scope(fn):
+    base = re.sub(r"(::\{closure#\d+\})+$", "", fn)
+    base = _strip_generics(base)
+    return base.rsplit("::", 1)[0] if "::" in base else ""
+
+
 def _is_place(d):
     return isinstance(d, dict) and isinstance(d.get("l"), int) and isinstance(d.get("p"), list)
 
@@ -209,6 +218,11 @@ def normalise(prog, recorded):
         sites = 0; callers = set()
         for fn, P in list(prog.bodies.items()):
             if fn == n:
+                continue
+            # a new method of a layer the rules reason about by name (the storage engine's API)
+            # stays a method of that layer for callers outside it: `handler -> new engine method`
+            # is a new engine operation, not an extracted helper
+            if _scope(n) in LAYER_SCOPES and _scope(fn) != _scope(n):
                 continue
             changed = True
             guard = 0
